@@ -244,3 +244,241 @@ Proof.
   - rewrite date_to_days_ok in E by assumption. injection E as <-. apply (in_range_rd (y,m,d)); assumption.
   - destruct (date_to_days_err y m d Hm Hd K) as (a & b & c & v & E'). congruence.
 Qed.
+
+Lemma year_doy_in_i32 y n r : 0 <= n -> year_doy_to_days y n false = Ok r -> in_i32 r.
+Proof.
+  intros Hn E. destruct (year_doy_to_days_spec y n Hn) as [A B].
+  assert (C : (y <> 0 /\ 1 <= n <= ylen y /\ in_i32 (rd (y, 1, 1) + n - 1)) \/ ~ (y <> 0 /\ 1 <= n <= ylen y /\ in_i32 (rd (y, 1, 1) + n - 1)))
+    by (unfold in_i32; lia).
+  destruct C as [C | C]; [rewrite (A C) in E; injection E as <-; tauto | destruct (B C) as (a & b & c & v & E'); congruence].
+Qed.
+
+Definition pdnn (d : pdate) : Prop := 0 <= oz (pd_month d) 1 /\ 0 <= oz (pd_dom d) 1 /\ 0 <= oz (pd_doy d) 0.
+Definition ptnn (x : ptime) : Prop :=
+  0 <= oz (pt_hour x) 0 /\ 0 <= oz (pt_phour x) 0 /\ 0 <= oz (pt_period x) 0 /\ 0 <= oz (pt_minute x) 0 /\ 0 <= oz (pt_second x) 0 /\
+  0 <= oz (pt_decis x) 0 /\ 0 <= oz (pt_centis x) 0 /\ 0 <= oz (pt_millis x) 0 /\ 0 <= oz (pt_micros x) 0 /\ 0 <= oz (pt_nanos x) 0.
+Lemma set_date_nn d u v : pdnn d -> pdnn (set_date d u v).
+Proof. unfold pdnn, set_date, wrap_u32. intros H. destruct u; cbn [pd_month pd_dom pd_doy oz]; lia. Qed.
+Lemma set_time_nn x u v : ptnn x -> ptnn (set_time x u v).
+Proof.
+  unfold ptnn, set_time, wrap_u64. intros H. destruct u; cbn [pt_hour pt_phour pt_period pt_minute pt_second pt_decis pt_centis pt_millis pt_micros pt_nanos oz];
+  try destruct (v =? 0); lia.
+Qed.
+Lemma parse_loop_nn pp : forall parts s d x d' x', pdnn d -> ptnn x -> parse_loop pp parts s d x = Ok (d', x') -> pdnn d' /\ ptnn x'.
+Proof.
+  induction parts as [|part tl IH]; intros s d x d' x' Hd Hx E; cbn [parse_loop] in E.
+  - injection E as <- <-. tauto.
+  - destruct (is_literal_part part).
+    + destruct (remove_literal_part part s); cbn [bind] in E; try discriminate. eapply IH; eassumption.
+    + destruct (pp part s) as [[[[u v]|] s']| |]; cbn [bind] in E; try discriminate.
+      * destruct (is_date_unit u); [eapply (IH _ _ _ _ _ (set_date_nn d u v Hd) Hx E) | eapply (IH _ _ _ _ _ Hd (set_time_nn x u v Hx) E)].
+      * eapply IH; eassumption.
+Qed.
+Lemma pd0_nn : pdnn PD0. Proof. unfold pdnn; cbn; lia. Qed.
+Lemma pt0_nn : ptnn PT0. Proof. unfold ptnn; cbn; lia. Qed.
+
+Lemma date_days_of_valid d r : pdnn d -> date_days_of d = Ok r -> in_i32 r.
+Proof.
+  unfold date_days_of, pdnn. intros (A & B & C) E. destruct (pd_doy d) as [n|]; cbn [oz] in C.
+  - eapply year_doy_in_i32; [|exact E]; exact C.
+  - eapply date_to_days_in_i32; [| |exact E]; assumption.
+Qed.
+
+Theorem date_parse_valid now s fmt r : date_parse now s fmt = Ok r -> in_i32 r.
+Proof.
+  unfold date_parse. intros E. destruct (parse_loop _ _ _ _ _) as [[d x]| |] eqn:L; cbn [bind] in E; try discriminate.
+  apply parse_loop_nn in L as [Hd _]; [|apply pd0_nn|apply pt0_nn]. eapply date_days_of_valid; eassumption.
+Qed.
+
+Lemma time_nanos_nn x : ptnn x -> 0 <= time_nanos x.
+Proof. unfold ptnn, time_nanos. intros H. destruct (pt_hour x); cbn [oz] in *; unfold NANOS_PER_SEC; nia. Qed.
+
+Lemma offset_from_seconds_ok o r : offset_from_seconds o = Ok r -> r = o /\ off_ok r.
+Proof.
+  unfold offset_from_seconds, off_ok. destruct (Z.leb_spec o (- SECS_PER_DAY)); cbn [orb]; [discriminate|].
+  destruct (Z.leb_spec SECS_PER_DAY o); [discriminate|]. intros E. injection E as <-. lia.
+Qed.
+
+Theorem time_parse_valid s fmt r : time_parse s fmt = Ok r -> Inv_tm r.
+Proof.
+  unfold time_parse. intros E. destruct (parse_loop _ _ _ _ _) as [[d x]| |] eqn:L; cbn [bind] in E; try discriminate.
+  apply parse_loop_nn in L as [_ Hx]; [|apply pd0_nn|apply pt0_nn]. apply time_nanos_nn in Hx.
+  unfold time_from_nanos in E. destruct (Z.leb_spec NANOS_PER_DAY (time_nanos x)); cbn [bind] in E; try discriminate.
+  destruct (pt_offset x) as [off|].
+  - destruct (offset_from_seconds off) as [o| |] eqn:O; cbn [bind] in E; try discriminate.
+    apply offset_from_seconds_ok in O as [-> O].
+    unfold time_as_offset, time_from_nanos in E. cbn [tm_nanos] in E.
+    pose proof (remove_offset_in_day (time_nanos x) off) as R. unfold D in R.
+    destruct (Z.leb_spec NANOS_PER_DAY (remove_offset_from_nanos (time_nanos x) off)); [lia|]. cbn in E. injection E as <-.
+    unfold Inv_tm. cbn. split; [lia | exact O].
+  - injection E as <-. unfold Inv_tm, off_ok, SECS_PER_DAY. cbn. lia.
+Qed.
+
+Lemma nanos_to_days_nanos_inv t d n : nanos_to_days_nanos t = Ok (d, n) -> in_i32 d /\ 0 <= n < NANOS_PER_DAY.
+Proof.
+  intros E. assert (C : inst_in_range t \/ ~ inst_in_range t) by (unfold inst_in_range; lia). destruct C as [C | C].
+  - destruct (split_ok t C) as (E' & A & B & _). rewrite E' in E. injection E as <- <-. unfold D in *. tauto.
+  - destruct (nanos_to_days_nanos_err t C) as [e E']. congruence.
+Qed.
+
+Theorem dt_parse_valid now s fmt r : dt_parse now s fmt = Ok r -> Inv_dt r.
+Proof.
+  unfold dt_parse. intros E. destruct (parse_loop _ _ _ _ _) as [[d x]| |] eqn:L; cbn [bind] in E; try discriminate.
+  apply parse_loop_nn in L as [Hd Hx]; [|apply pd0_nn|apply pt0_nn]. apply time_nanos_nn in Hx.
+  destruct (date_days_of d) as [days| |] eqn:Ed; cbn [bind] in E; try discriminate.
+  apply date_days_of_valid in Ed; [|exact Hd].
+  unfold time_from_nanos in E. destruct (Z.leb_spec NANOS_PER_DAY (time_nanos x)); cbn [bind] in E; try discriminate.
+  cbn [tm_nanos] in E.
+  destruct (pt_offset x) as [off|].
+  - destruct (offset_from_seconds off) as [o| |] eqn:O; cbn [bind] in E; try discriminate.
+    apply offset_from_seconds_ok in O as [-> O].
+    destruct (try_remove_offset_from_dn days (time_nanos x) off) as [[dd nn]| |] eqn:T; cbn [bind] in E; try discriminate.
+    injection E as <-. apply nanos_to_days_nanos_inv in T. unfold Inv_dt. cbn [dt_days dt_nanos dt_off]. tauto.
+  - injection E as <-. unfold Inv_dt, off_ok, SECS_PER_DAY. cbn [dt_days dt_nanos dt_off]. split; [exact Ed|]. split; lia.
+Qed.
+
+(* ---------- RFC 3339 ---------- *)
+Lemma dva_bound s : forall acc, all_digits s = true -> 0 <= acc ->
+  acc * 10 ^ Z.of_nat (length s) <= digits_val_aux s acc < (acc + 1) * 10 ^ Z.of_nat (length s).
+Proof.
+  induction s as [|c tl IH]; intros acc Hd Ha.
+  - cbn. lia.
+  - cbn [all_digits forallb] in Hd. apply andb_true_iff in Hd as [Hc Hd]. unfold is_ascii_digit in Hc.
+    apply andb_true_iff in Hc as [Hc1 Hc2]. apply Z.leb_le in Hc1, Hc2.
+    cbn [digits_val_aux length]. rewrite Nat2Z.inj_succ, Z.pow_succ_r by lia.
+    specialize (IH (acc * 10 + (c - 48)) Hd ltac:(lia)).
+    assert (0 < 10 ^ Z.of_nat (length tl)) by (apply Z.pow_pos_nonneg; lia). nia.
+Qed.
+Lemma digits_val_bound s : all_digits s = true -> 0 <= digits_val s < 10 ^ Z.of_nat (length s).
+Proof. intros H. pose proof (dva_bound s 0 H ltac:(lia)). unfold digits_val. lia. Qed.
+
+Lemma parse_unsigned_bound mx s v : parse_unsigned mx s = Some v -> 0 <= v < 10 ^ Z.of_nat (length s).
+Proof.
+  unfold parse_unsigned. intros H.
+  assert (G : forall body, (Z.of_nat (length body) <= Z.of_nat (length s)) ->
+     match body with [] => None | _ => if all_digits body then (let v := digits_val body in if v <=? mx then Some v else None) else None end = Some v ->
+     0 <= v < 10 ^ Z.of_nat (length s)).
+  { intros body Hl Hb. destruct body as [|b0 bt] eqn:Eb; [discriminate|]. rewrite <- Eb in *. destruct (all_digits body) eqn:Ad; [|discriminate].
+    cbv zeta in Hb. destruct (digits_val body <=? mx); [|discriminate]. injection Hb as <-.
+    pose proof (digits_val_bound body Ad). assert (10 ^ Z.of_nat (length body) <= 10 ^ Z.of_nat (length s)) by (apply Z.pow_le_mono_r; lia). lia. }
+  destruct s as [|c tl]; [discriminate|]. destruct (c =? 43); [apply (G tl) | apply (G (c :: tl))]; try exact H; cbn [length]; lia.
+Qed.
+Lemma parse_unsigned_digits mx s v : all_digits s = true -> parse_unsigned mx s = Some v -> v = digits_val s.
+Proof.
+  unfold parse_unsigned. destruct s as [|c tl]; [discriminate|]. intros Hd. pose proof Hd as Hd'. cbn [all_digits forallb] in Hd'.
+  apply andb_true_iff in Hd' as [Hc _]. unfold is_ascii_digit in Hc. apply andb_true_iff in Hc as [Hc1 Hc2]. apply Z.leb_le in Hc1, Hc2. destruct (Z.eqb_spec c 43); [lia|].
+  unfold all_digits in *. rewrite Hd. cbv zeta. destruct (_ <=? mx); [|discriminate]. intros E. injection E as <-. reflexivity.
+Qed.
+Lemma parse_signed_bound mn mx s v : parse_signed mn mx s = Some v -> s <> [] -> - 10 ^ (Z.of_nat (length s) - 1) < v < 10 ^ Z.of_nat (length s).
+Proof.
+  unfold parse_signed. destruct s as [|c tl]; [congruence|]. intros H _. cbn [length]. rewrite Nat2Z.inj_succ.
+  replace (Z.succ (Z.of_nat (length tl)) - 1) with (Z.of_nat (length tl)) by lia.
+  assert (0 < 10 ^ Z.of_nat (length tl)) by (apply Z.pow_pos_nonneg; lia).
+  destruct (c =? 45).
+  - destruct tl as [|t0 tt0] eqn:Et; [discriminate|]. rewrite <- Et in *. destruct (all_digits tl) eqn:Ad; [|discriminate].
+    cbv zeta in H. destruct (mn <=? _); [|discriminate]. injection H as <-. pose proof (digits_val_bound tl Ad).
+    rewrite Z.pow_succ_r by lia. lia.
+  - apply parse_unsigned_bound in H. cbn [length] in H. rewrite Nat2Z.inj_succ in H. lia.
+Qed.
+
+Lemma parse_offset_np s : npr (parse_offset s).
+Proof. unfold parse_offset. repeat match goal with |- npr (if ?b then _ else _) => destruct b | |- npr (match ?x with Some _ => _ | None => _ end) => destruct x end; npr_auto. Qed.
+Lemma parse_offset_ok s o : parse_offset s = Ok o -> off_ok o.
+Proof.
+  unfold parse_offset, off_ok, SECS_PER_DAY. destruct (starts_with [90] s); [intros E; injection E as <-; lia|].
+  destruct (_ || _); [discriminate|].
+  destruct (parse_unsigned _ _) as [h|] eqn:Eh; [|discriminate]. destruct (parse_unsigned U32_MAX (firstn 2 (skipn 4 s))) as [m|] eqn:Em; [|discriminate].
+  apply parse_unsigned_bound in Eh, Em. destruct (Z.ltb_spec 23 h); [discriminate|]. destruct (Z.ltb_spec 59 m); [discriminate|].
+  intros E. injection E as <-. destruct (starts_with [43] s); lia.
+Qed.
+
+Lemma rd_small y m d : valid (y, m, d) -> -999 <= y <= 9999 -> -366000 <= rd (y, m, d) <= 3653000.
+Proof.
+  intros (Hy & Hm & Hd) Hr. pose proof (cum_bounds y m d Hm Hd) as C. unfold rd, ystart, F, astro, ylen in *.
+  destruct (leap y); destruct (y <? 0); lia.
+Qed.
+
+Lemma date_to_days_inv y m d n : 0 <= m -> 0 <= d -> date_to_days y m d = Ok n -> valid (y, m, d) /\ in_range (y, m, d) /\ n = rd (y, m, d).
+Proof.
+  intros Hm Hd E. destruct (ErrProofs_classic y m d) as [[V R] | K].
+  - rewrite date_to_days_ok in E by assumption. injection E as <-. tauto.
+  - destruct (date_to_days_err y m d Hm Hd K) as (a & b & c & v & E'). congruence.
+Qed.
+Lemma time_to_day_seconds_inv h m s r : 0 <= h -> 0 <= m -> 0 <= s -> time_to_day_seconds h m s = Ok r -> 0 <= r < 86400.
+Proof.
+  unfold time_to_day_seconds, validate_time. intros Hh Hm Hs.
+  destruct (Z.ltb_spec 23 h); [discriminate|]. destruct (Z.ltb_spec 59 m); [discriminate|]. destruct (Z.ltb_spec 59 s); [discriminate|].
+  cbn [bind]. intros E. injection E as <-. lia.
+Qed.
+Lemma time_to_day_seconds_np h m s : npr (time_to_day_seconds h m s).
+Proof. unfold time_to_day_seconds, validate_time. repeat match goal with |- npr (bind (if ?b then _ else _) _) => destruct b end; cbn [bind]; npr_auto. Qed.
+
+Lemma forallb_firstn {A} (f : A -> bool) n : forall l, forallb f l = true -> forallb f (firstn n l) = true.
+Proof. induction n as [|n IH]; intros [|a l]; cbn; try reflexivity. intros H. apply andb_true_iff in H as [H1 H2]. rewrite H1, (IH l H2). reflexivity. Qed.
+
+Lemma sub_text_len s a b : (length (sub_text s a b) <= b - a)%nat.
+Proof. unfold sub_text. apply firstn_le_length. Qed.
+
+Lemma pow10_le a b : 0 <= a <= b -> 10 ^ a <= 10 ^ b. Proof. intros. apply Z.pow_le_mono_r; lia. Qed.
+
+Lemma scale_bound x a b : 0 <= x < a -> 0 < b -> a * b = 1000000000 -> 0 <= x * b < 1000000000.
+Proof.
+  intros Hx Hb P. assert (x * b <= (a - 1) * b) by (apply Z.mul_le_mono_nonneg_r; lia). assert (0 <= x * b) by (apply Z.mul_nonneg_nonneg; lia).
+  replace ((a - 1) * b) with (a * b - b) in * by ring. lia.
+Qed.
+
+Theorem rfc_parse_total s : npr (dt_parse_rfc3339 s) /\ (forall r, dt_parse_rfc3339 s = Ok r -> Inv_dt r).
+Proof.
+  unfold dt_parse_rfc3339.
+  destruct (byte_len s <? 20); [split; [npr_auto | discriminate]|].
+  destruct (negb _); [split; [npr_auto | discriminate]|].
+  destruct (parse_signed _ _ _) as [year|] eqn:Ey; [|split; [npr_auto | discriminate]].
+  destruct (parse_unsigned U32_MAX (sub_text s 5 7)) as [month|] eqn:Emo; [|split; [npr_auto | discriminate]].
+  destruct (parse_unsigned U32_MAX (sub_text s 8 10)) as [day|] eqn:Eda; [|split; [npr_auto | discriminate]].
+  destruct (parse_unsigned U32_MAX (sub_text s 11 13)) as [hour|] eqn:Eh; [|split; [npr_auto | discriminate]].
+  destruct (parse_unsigned U32_MAX (sub_text s 14 16)) as [minute|] eqn:Emi; [|split; [npr_auto | discriminate]].
+  destruct (parse_unsigned U32_MAX (sub_text s 17 19)) as [second|] eqn:Ese; [|split; [npr_auto | discriminate]].
+  match goal with |- context [bind ?i _] => set (inner := i) end.
+  assert (Hin : npr inner /\ forall nanos o, inner = Ok (nanos, o) -> 0 <= nanos < 1000000000 /\ off_ok o).
+  { subst inner. destruct (match nth_error s 19 with Some c => c =? 46 | None => false end).
+    - cbv zeta. destruct (take_while_not_zone (skipn 20 s)) as [ns after].
+      destruct (match ns with [] => true | _ => false end) eqn:Ens; cbn [orb]; [split; [npr_auto | discriminate]|].
+      destruct (all_digits ns) eqn:Ad; cbn [negb]; [|split; [npr_auto | discriminate]].
+      destruct (parse_unsigned U64_MAX (firstn 9 ns)) as [v|] eqn:Ev; [|split; [npr_auto | discriminate]].
+      destruct after as [|a0 at0] eqn:Ea; [split; [npr_auto | discriminate]|]. rewrite <- Ea.
+      split.
+      + apply npr_bind; [apply parse_offset_np | intros; npr_auto].
+      + intros nanos o E. destruct (parse_offset after) as [o'| |] eqn:Eo; cbn [bind] in E; try discriminate.
+        injection E as <- <-. split; [|eapply parse_offset_ok; exact Eo].
+        assert (Ad9 : all_digits (firstn 9 ns) = true) by (apply forallb_firstn; exact Ad).
+        apply parse_unsigned_digits in Ev; [|exact Ad9]. subst v. pose proof (digits_val_bound _ Ad9) as B.
+        set (k := Z.of_nat (length (firstn 9 ns))) in *.
+        assert (Hk : 0 <= k <= 9) by (subst k; pose proof (firstn_le_length 9 ns); lia).
+        assert (0 < 10 ^ (9 - k)) by (apply Z.pow_pos_nonneg; lia).
+        assert (P : 10 ^ k * 10 ^ (9 - k) = 1000000000) by (rewrite <- Z.pow_add_r by lia; replace (k + (9 - k)) with 9 by lia; reflexivity).
+        apply (scale_bound _ (10 ^ k) _); [exact B | assumption | exact P].
+    - split.
+      + apply npr_bind; [apply parse_offset_np | intros; npr_auto].
+      + intros nanos o E. destruct (parse_offset (skipn 19 s)) as [o'| |] eqn:Eo; cbn [bind] in E; try discriminate.
+        injection E as <- <-. split; [lia | eapply parse_offset_ok; exact Eo]. }
+  destruct Hin as [Hnp Hok]. clearbody inner.
+  assert (Hy : -999 <= year <= 9999).
+  { destruct (sub_text s 0 4) as [|c0 t0] eqn:Es; [discriminate|]. rewrite <- Es in *.
+    apply parse_signed_bound in Ey; [|rewrite Es; discriminate]. pose proof (sub_text_len s 0 4) as L.
+    assert (1 <= Z.of_nat (length (sub_text s 0 4))) by (rewrite Es; cbn [length]; lia).
+    pose proof (pow10_le (Z.of_nat (length (sub_text s 0 4)) - 1) 3 ltac:(lia)). pose proof (pow10_le (Z.of_nat (length (sub_text s 0 4))) 4 ltac:(lia)).
+    change (10 ^ 3) with 1000 in *. change (10 ^ 4) with 10000 in *. lia. }
+  apply parse_unsigned_bound in Emo, Eda, Eh, Emi, Ese.
+  destruct inner as [[nanos o]| |]; cbn [bind]; [|split; [npr_auto | discriminate]|exfalso; apply Hnp; reflexivity].
+  destruct (Hok nanos o eq_refl) as [Hn Ho].
+  destruct (date_to_days year month day) as [days|e|] eqn:Ed; cbn [bind]; [|split; [npr_auto | discriminate]|exfalso; eapply date_to_days_no_panic; exact Ed].
+  apply date_to_days_inv in Ed as (V & R & ->); [|lia|lia]. pose proof (rd_small _ _ _ V Hy) as Hrd.
+  destruct (time_to_day_seconds hour minute second) as [secs|e|] eqn:Et; cbn [bind]; [|split; [npr_auto | discriminate]|exfalso; eapply time_to_day_seconds_np; exact Et].
+  apply time_to_day_seconds_inv in Et; [|lia|lia|lia].
+  set (v := mkDT _ _ 0).
+  assert (Iv : Inv_dt v).
+  { subst v. unfold Inv_dt, in_i32, off_ok. cbn [dt_days dt_nanos dt_off]. revert Hrd Et Hn. unfold_consts. lia. }
+  assert (Rv : inst_in_range (instant v - o * NANOS_PER_SEC)).
+  { subst v. unfold inst_in_range, instant, MIN_I, MAX_I, off_ok in *. cbn [dt_days dt_nanos]. revert Hrd Et Hn Ho. unfold_consts. lia. }
+  destruct (c10_as_offset v o Iv Ho Rv) as (v' & E' & _ & _ & _ & I'). rewrite E'. split; [npr_auto|]. intros r E. injection E as <-. exact I'.
+Qed.
